@@ -1435,6 +1435,19 @@ bucket_setdefault(Bucket *self, PyObject *args)
     if (! PyArg_UnpackTuple(args, "setdefault", 2, 2, &key, &failobj))
         return NULL;
 
+    {
+        /* A default that could not be stored is an error even when the key
+         * is present and the default is not needed (as in the Python
+         * implementation):  setdefault() is a writing call.
+         */
+        VALUE_TYPE v;
+        int copied = 1;
+        COPY_VALUE_FROM_ARG(v, failobj, copied);
+        (void)v;
+        UNLESS (copied)
+            return NULL;
+    }
+
     value = _bucket_get(self, key, 0);
     if (value != NULL)
         return value;
